@@ -1,14 +1,23 @@
 """C17 — selective (lazy) solving equals full recomputation (maxmin).
-No Coq theorem yet (the closure of the modified set under update_modified_cnst_set_rec is not modelled): this check is a
-differential correspondence only and is NOT claimed.
-K : every history is run by the real MaxMin with selective update on, with selective update off, with selective update on and
+Proof : coq/theories/Lmm/Selective.v models the selective-update bookkeeping of lmm::System (modified_constraint_set, visited_
+    stamps, visited_counter_ mod 2^32 and every place that updates them) on top of Lmm/System.v; Props/Properties_C17.v states, for
+    every history and every initial counter, that the modified set is closed under "shares an enabled variable" (a union of
+    connected components), contains the constraints touched since the last solve, and that the max-min characterisation
+    (feasible + every variable has a bottleneck) splits along such a set (C17_local_partial).
+K : every history is run by the real MaxMin with selective update on, with selective update off, and with selective update on and
     visited_counter_ started 3 solves before its wrap-around; at every solve() the three value vectors must agree, and must agree
-    with a FRESH system built from the current activities (constraints, enabled variables with their penalties/bounds/weights)
-    and solved from scratch."""
+    with a FRESH system built from the current activities and solved from scratch.  After EVERY operation of the two selective
+    runs the implementation's modified_constraint_set and visited_counter_ are dumped and compared with the extracted model's.
+O : the verified closure checker (run_c17_closed, Coq: find_open_none_iff) runs on every dumped modified set; a constraint whose
+    solver-visible data changed (capacity, enabled elements, their weights/penalties/bounds) must be in the dumped set."""
 import json
 import fw
 import lmm_common as L
 from fractions import Fraction as F
+
+AGE = 8
+W32 = 1 << 32
+WRAP_INIT = W32 - 3
 
 CORPUS = [
     # a variable re-enabled while its first constraint is already in the modified set (repaired defect c05940b907)
@@ -17,7 +26,108 @@ CORPUS = [
      (L.NEWV, F(4), F(3)), (L.EXPAND, 2, 5, F(1, 16)), (L.NEWV, F(4), F(-1)), (L.SOLVE,), (L.PEN, 5, F(1, 2)), (L.PEN, 0, F(4)), (L.SOLVE,)],
     [(L.NEWC, F(10), 1, -1), (L.NEWC, F(4), 1, -1), (L.NEWV, F(1), F(-1)), (L.NEWV, F(1), F(-1)), (L.EXPAND, 0, 0, F(1)), (L.EXPAND, 1, 1, F(1)),
      (L.SOLVE,), (L.EXPAND, 1, 0, F(1)), (L.SOLVE,), (L.CBOUND, 0, F(2)), (L.SOLVE,), (L.FREE, 1), (L.SOLVE,)],
+    # expand() onto a constraint that is already in the modified set (repaired defect e1052b4b48)
+    [(L.NEWC, F(10), 1, -1), (L.NEWC, F(1), 1, -1), (L.NEWV, F(1), F(-1)), (L.EXPAND, 1, 0, F(1)), (L.SOLVE,), (L.CBOUND, 0, F(10)),
+     (L.EXPAND, 0, 0, F(1)), (L.SOLVE,)],
+    # a variable never visited since it was created at counter 1 (stamp 0) meets the counter after its wrap (repaired defect 142d91a19d)
+    [(L.NEWC, F(10), 1, -1), (L.NEWC, F(1), 1, -1), (L.NEWC, F(1), 1, -1), (L.CBOUND, 0, F(10)), (L.CBOUND, 1, F(1)), (L.NEWV, F(1), F(-1)),
+     (L.EXPAND, 1, 0, F(1)), (L.EXPAND, 0, 0, F(1)), (L.SOLVE,), (AGE, W32 - 3), (L.CBOUND, 2, F(1)), (L.SOLVE,), (L.CBOUND, 2, F(1)), (L.SOLVE,),
+     (L.CBOUND, 2, F(1)), (L.SOLVE,), (L.CBOUND, 0, F(5)), (L.SOLVE,)],
+    # stamps of the previous cycle of the counter must be gone when the counter comes back to them
+    [(L.NEWC, F(10), 1, -1), (L.NEWC, F(1), 1, -1), (L.NEWV, F(1), F(-1)), (L.EXPAND, 1, 0, F(1)), (L.EXPAND, 0, 0, F(1)), (L.SOLVE,),
+     (L.CBOUND, 0, F(8)), (L.SOLVE,), (L.CBOUND, 0, F(10)), (L.SOLVE,), (L.CBOUND, 0, F(8)), (L.SOLVE,), (L.CBOUND, 0, F(10)), (L.SOLVE,),
+     (AGE, W32 - 3), (L.CBOUND, 0, F(5)), (L.SOLVE,)],
 ]
+
+
+def encode(ops):
+    out = []
+    for o in ops:
+        out += [8, o[1]] if o[0] == AGE else L.encode([o])
+    return out
+
+
+def show(ops):
+    return "; ".join("age_until_counter(%d)" % o[1] if o[0] == AGE else L.show([o]) for o in ops)
+
+
+def case_of(ops, **kw):
+    d = {"ops": [[o[0]] + [str(x) for x in o[1:]] for o in ops], "text": show(ops)}
+    d.update(kw)
+    return d
+
+
+def ops_of_case(case):
+    res = []
+    for o in case["ops"]:
+        res.append((AGE, int(o[1])) if int(o[0]) == AGE else L.ops_of_case({"ops": [o]})[0])
+    return res
+
+
+def gen(rng, maxc):
+    """a 60-modification history of lmm_common, with ageing steps inserted after some solves so that the counter passes its
+    wrap-around and comes back near the stamps left by the first solves"""
+    h = L.gen_history(rng, nops=60, maxc=maxc, limits=(rng.random() < 0.3), solve_p=0.25, suspend=0.15)
+    if rng.random() < 0.7:
+        solves = [i for i, o in enumerate(h) if o[0] == L.SOLVE][:-1]
+        for i in sorted(rng.sample(solves, min(len(solves), rng.choice([1, 1, 2]))), reverse=True):
+            h.insert(i + 1, (AGE, W32 - 1 - rng.randrange(0, 6)))
+    return h
+
+
+def run_sel(exe, hist, vinit):
+    """selective run with the modified set dumped: -> [(segments, crash, mods)] ; mods[i] = (set list, counter, stamps)"""
+    rc, out, err = fw.run_lines(exe, ["maxmin", "1", str(vinit), "mod"], [" ".join(map(str, encode(h))) for h in hist], timeout=1800)
+    if rc != 0 or len(out) != len(hist):
+        raise fw.BuildError("lmm_drv ended with rc=%d after %d/%d histories: %s" % (rc, len(out), len(hist), err[-400:]))
+    res = []
+    for l in out:
+        segs, crash = L.parse_line(l)
+        mods = []
+        for part in l.split("|")[1:]:
+            t = part.split()
+            if "M" not in t:
+                continue
+            t = t[t.index("M") + 1:]
+            n = int(t[0])
+            mods.append(([int(x) for x in t[1:1 + n]], int(t[1 + n]), [int(x) for x in t[2 + n:]]))
+        res.append((segs, crash, mods))
+    return res
+
+
+def run_full(exe, hist):
+    rc, out, err = fw.run_lines(exe, ["maxmin", "0"], [" ".join(map(str, encode(h))) for h in hist], timeout=1800)
+    if rc != 0 or len(out) != len(hist):
+        raise fw.BuildError("lmm_drv ended with rc=%d after %d/%d histories: %s" % (rc, len(out), len(hist), err[-400:]))
+    return [L.parse_line(l) for l in out]
+
+
+def graph_ints(seg, mod):
+    r = [len(seg.cns)]
+    for k in seg.cns:
+        r += [len(k["en"])] + [v for v, _ in k["en"]]
+    r.append(len(seg.vars))
+    for x in seg.vars:
+        r += [len(x["elems"])] + [c for c, _ in x["elems"]] if x["alive"] else [0]
+    return r + [len(mod)] + list(mod)
+
+
+def view(seg, c):
+    """what the solver reads of constraint c"""
+    k = seg.cns[c]
+    return (k["bound"], k["shared"], tuple(sorted((v, w, seg.vars[v]["pen"], seg.vars[v]["bound"]) for v, w in k["en"])))
+
+
+def model_obs(ans, nops):
+    """answer of run_c17 -> [(counter, set, closed, touched_in)] per operation"""
+    res, i = [], 0
+    for _ in range(nops):
+        if i >= len(ans):
+            break
+        n = ans[i + 1]
+        res.append((ans[i], ans[i + 2:i + 2 + n], ans[i + 2 + n], ans[i + 3 + n]))
+        i += 4 + n
+    return res
 
 
 def fresh_history(s):
@@ -38,35 +148,96 @@ def close(a, b):
     return abs(a - b) <= 4 * L.TOL * max(1, abs(a), abs(b))
 
 
+def check_sets(ctx, hist, runs, label, vinit, stats):
+    """the tie and the oracle on the modified sets of one selective run"""
+    cases = [[1, 1, 1, vinit] + encode(h) for h in hist]
+    answers = fw.run_model("c17", "run_c17", cases)
+    ocases, owhere = [], []
+    for hi, h in enumerate(hist):
+        segs, crash, mods = runs[hi]
+        if crash is not None:
+            continue
+        mob = model_obs(answers[hi], len(h))
+        prev = None
+        for i, (seg, (mset, cnt, stamps)) in enumerate(zip(segs, mods)):
+            pre = h[:i + 1]
+            stats["set_dumps"] += 1
+            if len(set(mset)) != len(mset):
+                ctx.fail("modified-set-duplicate", "%s: a constraint is twice in modified_constraint_set %s after: %s" % (label, mset, show(pre)),
+                         case_of(pre, vinit=vinit))
+                break
+            ocases.append(graph_ints(seg, mset))
+            owhere.append((hi, i))
+            bad = None
+            if prev is not None and h[i][0] not in (L.SOLVE, AGE):
+                pseg, pset = prev
+                for c in range(len(pseg.cns)):
+                    if view(pseg, c) != view(seg, c) and seg.cns[c]["en"] and c not in mset:
+                        bad = ("touched-constraint-not-in-modified-set", "constraint %d changed (%s -> %s) but is not in the modified set %s" % (
+                            c, view(pseg, c), view(seg, c), mset))
+                        break
+                    if c in pset and c not in mset and (seg.cns[c]["en"] or seg.cns[c]["dis"]):
+                        bad = ("modified-set-shrinks", "constraint %d left the modified set (%s -> %s) before any solve although it still has elements" % (
+                            c, pset, mset))
+                        break
+            if bad:
+                ctx.fail(bad[0], "%s: %s after: %s" % (label, bad[1], show(pre)), case_of(pre, vinit=vinit))
+                break
+            prev = (seg, mset)
+            if i < len(mob):
+                mc, ms, mclosed, mtouch = mob[i]
+                if mclosed != 1 or mtouch != 1:
+                    ctx.mismatch("model-invariant", "%s: the extracted model's own state violates C17_modified_closed after: %s" % (label, show(pre)),
+                                 case_of(pre, vinit=vinit))
+                    break
+                if sorted(ms) != sorted(mset) or mc != cnt:
+                    stats["set_mismatch"] += 1
+                    ctx.mismatch("modified-set", "%s: modified set %s counter %d in the implementation, %s counter %d in the model after: %s" % (
+                        label, sorted(mset), cnt, sorted(ms), mc, show(pre)), case_of(pre, vinit=vinit))
+                    break
+            else:
+                ctx.mismatch("modified-set", "%s: the model stops before the implementation on %s" % (label, show(pre)), case_of(pre, vinit=vinit))
+                break
+    if ocases:
+        for (hi, i), ans in zip(owhere, fw.run_model("c17", "run_c17_closed", ocases)):
+            stats["closure_checked"] += 1
+            if ans[:1] != [1]:
+                pre = hist[hi][:i + 1]
+                ctx.fail("modified-set-not-closed",
+                         "%s: constraint %s is in the modified set, variable %s is enabled on it and also uses constraint %s, which is not in the set %s, after: %s" % (
+                             label, ans[1:2], ans[2:3], ans[3:4], runs[hi][2][i][0], show(pre)), case_of(pre, vinit=vinit))
+
+
 def run(ctx):
     ctx.simgrid(["simgrid"])
-    ctx.level = "exploration"
+    ctx.prove()
     drv = fw.build_harness("lmm_drv")
     if ctx.replay:
-        hist = [L.ops_of_case(json.load(open(ctx.replay))["case"])]
+        hist = [ops_of_case(json.load(open(ctx.replay))["case"])]
     else:
-        n = ctx.n(150, 3000)
-        hist = list(CORPUS) + [L.gen_history(ctx.rng, nops=60, maxc=ctx.rng.choice([3, 6, 12]), limits=(ctx.rng.random() < 0.3),
-                                             solve_p=0.25, suspend=0.15) for _ in range(n)]
-    ctx.cov["rule"] = ("random histories of 60 modifications (add/free, re-expand, bounds, penalties, capacities > 0, suspend/resume, limits in 30%); "
-                       "every solve() is one evaluation; non-trivial = the solve happens after at least one modification that touches only a part "
-                       "of a system with >= 2 constraints in use; distinct = distinct (history prefix)")
-    stats = {"solves": 0, "fresh_compared": 0, "wrap_histories": len(hist)}
-    sel = L.run_driver(drv, "maxmin", True, hist)
-    full = L.run_driver(drv, "maxmin", False, hist)
-    wrap = L.run_driver(drv, "maxmin", True, hist, vinit=4294967293)
+        n = ctx.n(120, 2500)
+        hist = list(CORPUS) + [gen(ctx.rng, ctx.rng.choice([3, 6, 12])) for _ in range(n)]
+    ctx.cov["rule"] = ("random histories of 60 modifications (add/free, re-expand, bounds, penalties, capacities > 0, suspend/resume, limits in 30%, "
+                       "ageing of the counter up to its wrap-around in 70%); every solve() is one evaluation; non-trivial = the solve happens after "
+                       "at least one modification that touches only a part of a system with >= 2 constraints in use; distinct = distinct (history prefix)")
+    stats = {"solves": 0, "fresh_compared": 0, "wrap_histories": len(hist), "set_dumps": 0, "closure_checked": 0, "set_mismatch": 0}
+    sel = run_sel(drv, hist, 1)
+    full = run_full(drv, hist)
+    wrap = run_sel(drv, hist, WRAP_INIT)
+    check_sets(ctx, hist, sel, "counter started at 1", 1, stats)
+    check_sets(ctx, hist, wrap, "counter started at 2^32-3", WRAP_INIT, stats)
     fresh_cases, fresh_where = [], []
     for hi, h in enumerate(hist):
-        (s1, c1), (s2, c2), (s3, c3) = sel[hi], full[hi], wrap[hi]
+        (s1, c1, _), (s2, c2), (s3, c3, _) = sel[hi], full[hi], wrap[hi]
         if c1 is not None or c2 is not None or c3 is not None:
-            ctx.fail("crash", "MaxMin aborts (%s/%s/%s) on %s" % (c1, c2, c3, L.show(h)), L.case_of(h))
+            ctx.fail("crash", "MaxMin aborts (%s/%s/%s) on %s" % (c1, c2, c3, show(h)), case_of(h))
             continue
         for i, (a, b, c) in enumerate(zip(s1, s2, s3)):
             if a.op != L.SOLVE:
                 continue
             stats["solves"] += 1
             used = sum(1 for k in a.cns if k["en"])
-            ctx.case(("h", tuple(L.encode(h[:i + 1]))), used >= 2, {"history": L.show(h[:i + 1])[:500]} if used >= 2 and i > 20 else None)
+            ctx.case(("h", tuple(encode(h[:i + 1]))), used >= 2, {"history": show(h[:i + 1])[:500]} if used >= 2 and i > 20 else None)
             bad = None
             for v, (x, y, z) in enumerate(zip(a.vars, b.vars, c.vars)):
                 if not x["alive"]:
@@ -79,14 +250,14 @@ def run(ctx):
                     break
             if bad:
                 ctx.fail(bad[0], "variable %d: %.17g with selective update, %.17g with full recomputation after: %s" % (
-                    bad[1], float(bad[2]), float(bad[3]), L.show(h[:i + 1])), L.case_of(h[:i + 1]))
+                    bad[1], float(bad[2]), float(bad[3]), show(h[:i + 1])), case_of(h[:i + 1]))
                 break
             if ctx.rng.random() < 0.5 or ctx.replay:
                 fh, ids = fresh_history(a)
                 fresh_cases.append(fh)
                 fresh_where.append((hi, i, ids))
     if fresh_cases:
-        fr = L.run_driver(drv, "maxmin", False, fresh_cases)
+        fr = run_full(drv, fresh_cases)
         for (hi, i, ids), (segs, crash) in zip(fresh_where, fr):
             if crash is not None or not segs:
                 continue
@@ -96,19 +267,35 @@ def run(ctx):
                 if not close(a.vars[v]["value"], f.vars[nv]["value"]):
                     ctx.fail("selective-differs-from-fresh-system",
                              "variable %d: %.17g in the system with selective update, %.17g in a fresh system holding the same activities, after: %s" % (
-                                 v, float(a.vars[v]["value"]), float(f.vars[nv]["value"]), L.show(hist[hi][:i + 1])), L.case_of(hist[hi][:i + 1]))
+                                 v, float(a.vars[v]["value"]), float(f.vars[nv]["value"]), show(hist[hi][:i + 1])), case_of(hist[hi][:i + 1]))
                     break
     ctx.cov["input_distribution"] = stats
     ctx.assumptions += ["values compared within 4e-5 relative; capacities > 0 (see finding maxmin-zero-capacity of C15)",
-                        "the fresh system holds the enabled variables with their current penalty, disabled/staged ones with penalty 0, no concurrency limit"]
+                        "the fresh system holds the enabled variables with their current penalty, disabled/staged ones with penalty 0, no concurrency limit",
+                        "age_until_counter(t) is a test device of the harness and of the model: it moves visited_counter_ to t (and clears modified_) as "
+                        "t - counter repetitions of update_constraint_bound(unused constraint); solve() would, only when the modified set is empty and "
+                        "without passing the wrap-around; the wrap itself is always executed by real solve() calls",
+                        "the comparison of 'touched' constraints (solver-visible data changed between two dumps => in the dumped set) and of set "
+                        "monotonicity between solves is Python glue over the dumps; closure is judged by the extracted verified checker"]
+    ctx.cov["trusted_base"] = ctx.cov.get("trusted_base", []) + ["harness/lmm_drv.cpp reads private members through '#define private public'"]
 
 
 META = {
-    "level": "exploration",
-    "text": "Differential check only (no theorem): real MaxMin with selective update vs. without vs. with visited_counter_ wrapping vs. a fresh system "
-            "rebuilt from the current activities, at every solve() of random 60-modification histories. It found and led to the repair of a real defect "
-            "(update_modified_cnst_set_from_variable flagged only cnsts_[0]).",
-    "note": "Not claimed: the closure theorem C17_modified_closed over a model of update_modified_cnst_set_rec / visited_ stamps is not written.",
-    "technique": "differential testing of the rebuilt library against itself (three configurations + fresh system)",
+    "level": "proof",
+    "text": "Selective.v models modified_constraint_set / visited_ / visited_counter_ (mod 2^32) and every System operation that updates them, "
+            "on top of System.v. Proved for every history and every initial counter in [1,2^32): the modified set is closed under 'shares an "
+            "enabled variable' and is a union of connected components (C17_modified_closed, C17_modified_components), contains the constraints "
+            "touched since the last solve (C17_touched_in_set), the recursion never runs out of fuel; the max-min characterisation (feasibility + "
+            "bottleneck) of an allocation splits along any such set (C17_local_partial), so a selective solve that re-solves exactly a closed set "
+            "and keeps the other rates yields an allocation satisfying the characterisation of the whole system (C17_selective_eq_full_partial). "
+            "Pinned code refuted on three witnesses (C17_pinned_*_refuted). Equality of the numeric rates with a full recomputation is K: "
+            "selective vs. full vs. counter-wrap vs. fresh system at every solve; the implementation's modified set and counter are compared "
+            "with the extracted model after every operation and judged by the verified closure checker.",
+    "note": "Not proved: uniqueness of the max-min characterisation (C16_unique is not available), hence the final step 'same rates' is by "
+            "differential testing only; FATPIPE/bounds are covered by the characterisation lemma but not by an equality theorem. Three defects "
+            "found and fixed in simgrid: c05940b907 (previous engineer), e1052b4b48 (expand on an already modified constraint), 142d91a19d "
+            "(counter wrap-around epoch 0).",
+    "technique": "Coq model + invariant proof over all histories; correspondence of private members after every operation; verified closure oracle; "
+                 "differential testing of the rebuilt library against itself",
     "claimed": False,
 }
